@@ -22,7 +22,7 @@ Theorem C05_root_ok_is : forall (R : StarRing) n (w : R),
   (0 < n /\ opow w (Z.to_nat n) = one /\
    (forall m, 0 < m < n -> sumZ n (fun k => opow w (Z.to_nat (k * m))) = zero) /\
    mul (conj w) w = one).
-Proof. intros. reflexivity. Qed.
+Proof. exact root_ok_unfold. Qed.
 Print Assumptions C05_root_ok_is.
 
 (* the orthogonality hypothesis follows from primitivity when R has no zero divisors *)
